@@ -4,6 +4,8 @@ TOK_NOTE = ("Trusted base: the analyser's model of the Python subset used by Str
 ENGINES = [
     dict(name='E4-provenance', path='sa/symex.py sa/pat.py sa/facts.py sa/roles.py', serves_properties=['C05', 'C06', 'C07', 'C09', 'C11', 'C13', 'C15', 'C16', 'C17', 'C18', 'C19'],
          kind_free_text='program model (classes, MRO, imports, alias families) + path-sensitive symbolic evaluator producing provenance terms, effects and guards; AC pattern matching with audio-parameter roles'),
+    dict(name='E8-path formulas', path='sa/semantic.py sa/termeval.py', serves_properties=['C07', 'C11', 'C13', 'C16'],
+         kind_free_text='per-path obligations "path condition => expression = specified function" decided by evaluating the extracted condition and terms (never auditok code) on finite grids of small inputs; helpers, property getters/setters and conditional expressions inlined first; unevaluable terms give INCONCLUSIVE'),
     dict(name='E5-nullness', path='sa/nullness.py', serves_properties=['C10', 'C18'], kind_free_text='nullness of read() results with interprocedural dereference/return summaries'),
     dict(name='E6-effects', path='sa/effects.py', serves_properties=['C17', 'C19', 'C20'], kind_free_text='transitive write-effect analysis over resolved callees'),
     dict(name='E3-fd traces', path='sa/props/c12.py sa/props/c13.py sa/props/c14.py (on sa/symex.py)', serves_properties=['C12', 'C13', 'C14'], kind_free_text='path enumeration of worker loops and hooks with messages abstracted to NONE/STOP/DATA; trace predicates over ordered effects'),
@@ -56,7 +58,7 @@ CHECKS += [
  ]
 CHECKS += [
     dict(id='C07', engine='E4-provenance', level='other', design_ref='DESIGN.md 4.7',
-         technique='static analysis: provenance terms of the energy decision normalised by rewrite rules (log/sqrt/clip), dtype table and reshape checks, selector dispatch by path enumeration with linear region comparison',
+         technique='static analysis: provenance terms of the energy decision normalised by rewrite rules (log/sqrt/clip), dtype table and reshape checks, selector dispatch by path enumeration; the accepted index region and the selected row are decided by evaluating the extracted path conditions and index term on a finite grid',
          text='Decides the formula shape (>=, 10*log10(mean square, last axis), -200 dB floor), the decoding table, the de-interleave, max-aggregation for None/any, and the selector guard region [-channels, channels). numpy numerics are not decided.',
          note=STRUCT_NOTE),
     dict(id='C09', engine='E4-provenance', level='other', design_ref='DESIGN.md 4.9, B.3',
@@ -64,11 +66,11 @@ CHECKS += [
          text='Decides that every short alias is read only as fallback of its long name, that split() normalises what it hands down, the container dispatch (stdin/bytes/file x raw/wav x lazy/eager) and the max_read limiter formulas. Equality of region lists across containers is not computed.',
          note=STRUCT_NOTE),
     dict(id='C11', engine='E4-provenance', level='other', design_ref='DESIGN.md 4.11',
-         technique='static analysis: sibling agreement of all read() implementations resolved through the MRO (open-check first, never empty bytes, whole-sample request), buffer cursor/position formulas and guards, role rule',
+         technique='static analysis: sibling agreement of all read() implementations resolved through the MRO (open-check first, never empty bytes, whole-sample request); buffer source decided operation by operation as Hoare triples over its extracted paths (helpers, property getters/setters inlined), discharged by evaluating path conditions, results and field updates as formulas on finite grids; role rule',
          text='Decides per-operation facts for all 5 concrete sources (open test first -> AudioIOError, None-or-non-empty results, size*width*channels requests, cursor arithmetic, position setter/guards, rewind/close). History equivalence as a whole is argued from these facts.',
          note=STRUCT_NOTE),
     dict(id='C16', engine='E4-provenance', level='other', design_ref='DESIGN.md 4.16',
-         technique='static analysis: provenance of the byte bounds of AudioRegion.__getitem__ (alignment, accepted normalisations), index validation guards, seconds/millis view formulas',
+         technique='static analysis: path enumeration of the three slicing functions with helpers inlined; per path, the extracted bound terms are evaluated as formulas on finite grids (bounds None/negative/out of range, 1-2 byte samples, 1-2 channels; fractional seconds at 8 Hz-44.1 kHz) and compared with Python slice semantics on whole samples; type guards by selecting the path an invalid index takes',
          text='Decides that both byte bounds are sample index x bytes-per-sample with only behaviour-preserving normalisations, the TypeError guards, len, and the int/round conversions of the time views. The float claim "within one sample period" is not decided.',
          note=STRUCT_NOTE),
     dict(id='C17', engine='E4-provenance + E6-effects', level='other', design_ref='DESIGN.md 4.17',
